@@ -365,7 +365,8 @@ def run_check(pid, tier, seed):
             return  # one replay per profile and kind: the smallest case
         reported.add(sig)
         same = [x for x in (stats["oracle_failures"] if kind == "oracle" else stats["disagreements"])
-                if x["profile"] == item["profile"] and not matches_known(pid, x, known)]
+                if x["profile"] == item["profile"] and not matches_known(pid, x, known)
+                and (kind == "oracle" or (x["profile"], x["index"]) not in oracle_cases)]
         best = min(same, key=lambda x: len(x["case"]))
         payload = {
             "property": pid, "kind": "property-failure-on-implementation" if kind == "oracle"
@@ -385,9 +386,9 @@ def run_check(pid, tier, seed):
             suffix = "no-failing-input-found"
         violations.append((path, suffix))
 
+    oracle_cases = set((x["profile"], x["index"]) for x in stats["oracle_failures"])
     for item in stats["oracle_failures"]:
         report(item, "oracle")
-    oracle_cases = set((x["profile"], x["index"]) for x in stats["oracle_failures"])
     for item in stats["disagreements"]:
         if (item["profile"], item["index"]) in oracle_cases:
             continue
